@@ -12,6 +12,7 @@ import (
 
 	"github.com/aws/aws-sdk-go/aws/awserr"
 	"github.com/jrhy/s3db"
+	"github.com/jrhy/s3db/kv"
 
 	"verif/harness/fakes3"
 	"verif/harness/sqlh"
@@ -343,6 +344,48 @@ var witnesses = []witness{
 			return fmt.Sprintf("a version still listed as current refers to deleted nodes: %v", d[:min(len(d), 2)])
 		}
 		return wantEq("rows after the vacuum", sqlh.QS(db2, "select count(*) from v"), i(8))
+	}},
+	{id: "F39", props: []string{"C04", "C16", "C14"}, what: "a kv Commit retried after a failed one reported success without storing anything", run: func(w *wEnv) string {
+		for _, kind := range []string{"/root/current/", "/node/"} {
+			store := fakes3.NewStore()
+			cfg := kv.Config{Storage: &kv.S3BucketInfo{EndpointURL: "http://fake", BucketName: "b", Prefix: "p"}, KeysLike: "", ValuesLike: "", BranchFactor: 4}
+			cl := store.Client("w")
+			db, err := kv.Open(ctxBG, cl, cfg, kv.OpenOptions{}, time.Unix(0, 1))
+			if err != nil {
+				return "open: " + err.Error()
+			}
+			defer db.Cancel()
+			db.Set(ctxBG, time.Unix(0, 10), "a", "v1")
+			if _, err := db.Commit(ctxBG); err != nil {
+				return "first commit: " + err.Error()
+			}
+			db.Set(ctxBG, time.Unix(0, 20), "b", "v2")
+			hit := false
+			cl.Fault = func(idx, midx int, op, key string) error {
+				if !hit && op == "PUT" && strings.Contains(key, kind) {
+					hit = true
+					return awserr.New("InternalError", "injected fault", nil)
+				}
+				return nil
+			}
+			_, err = db.Commit(ctxBG)
+			cl.Fault = nil
+			if err == nil || !hit {
+				return fmt.Sprintf("commit with a failing PUT under %s: err=%v hit=%v", kind, err, hit)
+			}
+			if _, err = db.Commit(ctxBG); err != nil {
+				continue // refusing is fine; acknowledging without storing is not
+			}
+			rd, err := kv.Open(ctxBG, store.Client("r"), cfg, kv.OpenOptions{ReadOnly: true}, time.Unix(0, 2))
+			if err != nil {
+				return "re-open: " + err.Error()
+			}
+			var v string
+			if ok, err := rd.Get(ctxBG, "b", &v); err != nil || !ok || v != "v2" {
+				return fmt.Sprintf("the retried Commit (after a failed PUT under %s) was acknowledged, but a fresh open sees b=%q present=%v err=%v", kind, v, ok, err)
+			}
+		}
+		return ""
 	}},
 	{id: "F15", props: []string{"C03"}, what: "an open racing with a commit showed an empty table (kv level)", run: func(w *wEnv) string {
 		// covered exhaustively by the proto stream; here: a version that left root/current/ between LIST and GET
